@@ -84,9 +84,9 @@ def run(v):
     out = os.path.join(C.WORK, PID)
     fresh_out(out)
     if v.tier == "quick":
-        args = ["-n", "4", "-points", "56"]
+        args = ["-n", "5", "-points", "60"]
     else:
-        args = ["-n", "18", "-kstep", "1"]
+        args = ["-n", "20", "-kstep", "1"]
     rc, o = C.sh([C.harness_bin(HARNESS), "crash", "-mode", "kill", "-out", out, "-seed", str(v.seed)] + args, timeout=20000)
     if rc != 0:
         v.violation("C03/harness-run", o[-1500:], {"theorem_or_correspondence": "correspondence fs_kill_state (harness run)"}, False)
@@ -108,10 +108,10 @@ def run(v):
         "rule": "kill points = (script, system call name, k): the child process running a deterministic script over the real "
                 "litestream code (script kept on one OS thread because strace counts injections per thread and per call) is "
                 "SIGKILLed on entry to the k-th openat/write/pwrite64/fsync/fdatasync/rename*/unlink*/ftruncate/"
-                "copy_file_range/sendfile; quick: 4 scripts (basic; reset = ResetLocalState on the open DB then syncs; resetfetch = reset + baseline "
-                "fetch + syncs + uploads; retention), about 56 kill points spread "
-                "evenly over the recorded K mutating calls of each; thorough: every kill point of 18 scripts (basic, reset, "
-                "resetfetch, retention, baseline, rerestore, checkpoint, follow, sidecar x 2 parameter draws). After each kill: every *.ltx must "
+                "copy_file_range/sendfile; quick: 5 scripts (basic; republish = publishes over existing final names; retention; reset = ResetLocalState on the open DB then syncs; resetfetch = reset + baseline "
+                "fetch + syncs + uploads; retention), about 60 kill points spread "
+                "evenly over the recorded K mutating calls of each; thorough: every kill point of 20 scripts (basic, reset, "
+                "resetfetch, republish, retention, baseline, rerestore, checkpoint, follow, sidecar x 2 parameter draws). After each kill: every *.ltx must "
                 "decode and checksum (ltx Decoder.Verify), restore output must be absent or a database in an acknowledged "
                 "state, sidecar absent or parsable, restore of the last acknowledged replica TXID must equal the digest "
                 "recorded at the ack, and a restart (no repair) + write + Sync + Replica.Sync + restore must equal the "
